@@ -34,8 +34,9 @@ var extraAnchorFiles = map[string][]string{
 	"C08": {"pkg/packet/bgp/validate.go", "pkg/server/peer.go"},
 	"C14": {"pkg/packet/bgp/bgp.go"},
 	"C05": {"pkg/packet/bgp/validate.go"},
-	"C01": {"internal/pkg/table/adj.go", "internal/pkg/table/table_manager.go"},
+	"C01": {"internal/pkg/table/adj.go", "internal/pkg/table/table_manager.go", "internal/pkg/table/path.go"}, // path.go: Path.Equal decides "best path unchanged, nothing to send" in GetChanges
 	"C12": {"internal/pkg/table/path.go"},
+	"C03": {"internal/pkg/table/adj.go"}, // the timestamp the age step compares is carried over (or not) in AdjRib.Update
 }
 
 // sliceBoundFloor: the properties anchored in wire decoders have at least this many functions that hand on bounded sub-slices.
@@ -78,6 +79,8 @@ func (c *Ctx) ruleRatchets(cid string) {
 	c.ruleWriteRatchet("E2.write-ratchet", pkgs, filter, "baselines/writes.json", 5)
 	c.ruleSliceBoundRatchet("E5.slice-bound-ratchet", pkgs, filter, "baselines/slicebounds.json", sliceBoundFloor[cid])
 	c.ruleResetRatchet("E6.reset-ratchet", pkgs, filter, "baselines/storeconsts.json", 0)
+	c.ruleProvenanceRatchet("E6.provenance-ratchet", pkgs, filter, "baselines/provenance.json", 5)
+	c.ruleLoopExitRatchet("E6.loop-exit-ratchet", pkgs, filter, "baselines/loops.json", 0)
 	// a panic in the daemon breaks whatever the property promises: the crash causes that have a cheap sound proof
 	if crashRelevant[cid] {
 		c.ruleMakeSizeNonNeg("E5.make-size-nonneg", pkgs, filter, 3)
@@ -85,4 +88,4 @@ func (c *Ctx) ruleRatchets(cid string) {
 }
 
 // RatchetExpl is appended to every property's explanation: ruleRatchets runs for all of them.
-const RatchetExpl = " In addition, over every function of the files the property is anchored in, eleven ratchets compare the tree with the committed, reviewed baselines (baselines/*.json, never written at run time; default build context only): (E4.case-ratchet) no switch lost a named case; (E6.call-ratchet) no function lost a callee, field store or map update, or one of several distinct sites of the same callee (distinct by receiver and arguments), that it does not now reach through a newly called helper; (E6.order-ratchet) in a function that still performs the same calls and stores, no two of them changed places in the strict control-flow order; (E6.condition-ratchet) in a function with the same number of comparisons, none was replaced by a point mutation of itself (another constant, another field, a moved boundary); (E6.always-ratchet) no step that ran on every path can now be bypassed; (E6.argument-ratchet) no call had one of its constant arguments replaced by another constant; (E6.read-ratchet) no function stopped reading a struct field it read; (E6.guard-ratchet) the condition under which a step runs, as a truth table over the tests it depends on, is unchanged unless it came under a new test; (E2.write-ratchet) no function started to write, itself or through its callees, into memory reachable from a parameter in a way it did not before; (E6.reset-ratchet) no function that set a field of an object it did not create to false, true, nil or zero stopped storing that value while still storing to the field (a per-session flag that is no longer reset); (E5.slice-bound-ratchet) no call that handed its callee a sub-slice of a byte buffer cut off at an upper index chosen by the code now hands over the rest of the buffer. For C05, C11, C19 and C20, whose statements exclude a crash, (E5.make-size-nonneg) additionally proves every make() size in those files non-negative. For the order, bypass and guard ratchets a function literal is a unit of its own, keyed by the enclosing function and by how the literal is used there (passed to which callee, called in place, deferred, go, stored) and its signature types, never by position or name; the other ratchets fold literals into the enclosing function. Each ratchet declines to decide (discharges with the reason) when the function's shape changed beyond what it can compare."
+const RatchetExpl = " In addition, over every function of the files the property is anchored in, thirteen ratchets compare the tree with the committed, reviewed baselines (baselines/*.json, never written at run time; default build context only): (E4.case-ratchet) no switch lost a named case; (E6.call-ratchet) no function lost a callee, field store or map update, or one of several distinct sites of the same callee (distinct by receiver and arguments), that it does not now reach through a newly called helper; (E6.order-ratchet) in a function that still performs the same calls and stores, no two of them changed places in the strict control-flow order; (E6.condition-ratchet) in a function with the same number of comparisons, none was replaced by a point mutation of itself (another constant, another field, a moved boundary); (E6.always-ratchet) no step that ran on every path can now be bypassed; (E6.argument-ratchet) no call had one of its constant arguments replaced by another constant; (E6.read-ratchet) no function stopped reading a struct field it read; (E6.guard-ratchet) the condition under which a step runs, as a truth table over the tests it depends on, is unchanged unless it came under a new test; (E2.write-ratchet) no function started to write, itself or through its callees, into memory reachable from a parameter in a way it did not before; (E6.reset-ratchet) no function that set a field of an object it did not create to false, true, nil or zero stopped storing that value while still storing to the field (a per-session flag that is no longer reset); (E6.provenance-ratchet) no call that is the only call of its callee in the function had an argument exchanged for another parameter of the same type, or the running value of an accumulation (a parameter merged with the result of a call, carried round a loop) replaced by the parameter alone; (E6.loop-exit-ratchet) no loop that had an effect in its body and could only be left when the iteration was over gained a break or return inside the body; (E5.slice-bound-ratchet) no call that handed its callee a sub-slice of a byte buffer cut off at an upper index chosen by the code now hands over the rest of the buffer. For C05, C11, C19 and C20, whose statements exclude a crash, (E5.make-size-nonneg) additionally proves every make() size in those files non-negative. For the order, bypass and guard ratchets a function literal is a unit of its own, keyed by the enclosing function and by how the literal is used there (passed to which callee, called in place, deferred, go, stored) and its signature types, never by position or name; the other ratchets fold literals into the enclosing function. Each ratchet declines to decide (discharges with the reason) when the function's shape changed beyond what it can compare."
